@@ -24,11 +24,21 @@
     the cutting-proxy runs exercise each of them on the real code.
 -/
 import GoSecs.Lemmas.Lifecycle
+import GoSecs.Gen.Facts
 
 namespace GoSecs.Props.C11
 open GoSecs.Lifecycle
 
 /-! ## Backoff: start, monotone, capped — for every sequence -/
+
+/-- Tie to the source, regenerated on every run: the reconnect loop obtains every next delay from the clamped
+    pure function `nextBackoffDelay` (whose cap and `next ≤ 0` guard the theorems below describe), and nothing else
+    calls it. A loop that advances its delay some other way (seeded change C11b-2: a bare float product, which
+    overflows to a negative duration after enough failed dials) breaks this obligation. -/
+theorem backoff_chokepoint_gen :
+    (GoSecs.Gen.callSites.filter (fun s => s.2.2.2 == "nextBackoffDelay")).map (fun s => (s.1, s.2.1, s.2.2.1))
+      = [("hsms", "connection_lifecycle.go", "connection.connectLoop")] := by
+  decide
 
 /-- **Start.** The first sleep is the configured initial value (capped by T5, which only matters for a
     configuration with `initial > T5`). -/
